@@ -136,6 +136,39 @@ CHECKS["C14"] = dict(
     design="DESIGN.md §3 C14",
 )
 
+CHECKS["C06"] = dict(
+    level="exploration",
+    engine="simsched",
+    technique="property-based testing (Hypothesis) of generated sampling histories against RefToast pixel centres and smooth harness samplers (direct oracle: sampler evaluated at the reference centre of each pixel), independent decoders; serial, Engine A schedules and real multiprocessing",
+    text="Depth 0-3(4), both coordinate systems, npy/fits/png/jpg tiles, scalar and colour samplers with undefined regions, clobber and update calls in sequence, worker counts 1-4: every pixel of every expected tile equals the sampler at that tile's own pixel centre; existence matches the filter's leaves. Held after two fixes this check motivated (depth 0; RGB update into 3-channel tiles).",
+    note="Trusts RefToast; pixels within 1e-9 of a sampler's cap boundary are not judged; jpg +-8 on grey smooth fields.",
+    design="DESIGN.md §3 C06",
+)
+CHECKS["C09"] = dict(
+    level="exploration",
+    engine="simsched",
+    technique="property-based testing (Hypothesis) of generated mosaics and decompositions; oracle = the assembled mosaic pasted into the RefStudy canvas (tiles decoded independently) + differential N inputs vs one assembled input + astrometry recomputed independently from the generated grid; Engine A schedules with critical-section yields, real multiprocessing sampled",
+    text="1-6 overlapping sub-images with NaN borders on a common (possibly rotated) TAN grid, both storage parities, any input order, fits/npy tiles, 1-4 workers: deepest-level tiles equal tiling the assembled mosaic, the ImageSet/Place equal both the single-image route and an independent computation, no lock files remain.",
+    note="Overlapping inputs agree by construction. Engine A treats the tile read and write as yield points with the real SoftFileLock; real OS interleavings are sampled.",
+    design="DESIGN.md §3 C09",
+)
+CHECKS["C10"] = dict(
+    level="exploration",
+    engine="gated",
+    technique="schedule-controlled concurrency testing: real forked processes + real filelock, every lock attempt / read / write start / write middle / release gated and ordered by a Hypothesis-generated schedule; oracle = sequential application of the updates in write-completion order, no decode failure, no dead-lock",
+    text="2-4 updater processes x 1-3 updates x 1-2 tiles x disjoint/overlapping rectangles under generated gate orders: the final tile always equalled the sequential result and no reader saw a half-written tile.",
+    note="Gate granularity as listed; O_CREAT|O_EXCL atomicity trusted; float32 tiles in npy/fits.",
+    design="DESIGN.md §3 C10, §2.3",
+)
+CHECKS["C17"] = dict(
+    level="exploration",
+    engine="direct",
+    technique="exhaustive enumeration of positions to depth 6 for both naming schemes + property-based testing (Hypothesis) of workflows and of call histories; oracle = WWT-client expansion of the WTML Url template vs the directory tree (both directions) and the reference population (RefStudy / TOAST levels); round trip returned Builder -> XML vs index_rel.wtml after every call of a history",
+    text="Both schemes x 4 formats x every position to depth 6 and sampled to depth 20; tile-study and tile-allsky CLI (+cascade), tile_fits TAN/TOAST; histories of tile_fits calls (fresh, repeat, override, other parallelism) on one directory. Held after the fix of the reuse path this check motivated.",
+    note="WWT clients expand {1},{2},{3}. The pipeline's process-todos workflow (LXY scheme) is covered at the path-scheme level and through Builder, not by running an image source.",
+    design="DESIGN.md §3 C17",
+)
+
 NOT_APPLICABLE = {}
 
 
